@@ -1,11 +1,26 @@
 #!/bin/sh
 # MANIFEST.setup_cmd: build everything the checks need from files on disk only (offline).
-set -e
+# Each check also (re)builds its own Lean modules and driver on every run, so a module of a property
+# that is not claimed (or is work in progress) failing to build here must not fail the setup.
 HERE="$(cd "$(dirname "$0")" && pwd)"
-cd "$HERE"
+cd "$HERE" || exit 2
 if [ ! -d .pydeps/scipy ]; then
   /venv/bin/python -m pip install --no-index --no-deps --quiet \
-      --find-links /opt/veriftools/wheels --target "$HERE/.pydeps" scipy
+      --find-links /opt/veriftools/wheels --target "$HERE/.pydeps" scipy || exit 2
 fi
-cd lean
-lake build
+cd lean || exit 2
+IDS=$(/venv/bin/python -c "
+import json
+m = json.load(open('$HERE/MANIFEST.json'))
+print(' '.join(c['property_id'] for c in m['checks']))")
+rc=0
+for id in $IDS; do
+  low=$(echo "$id" | tr 'A-Z' 'a-z')
+  echo "[setup] lake build AbacusVerif.Props.$id drv_$low"
+  if ! lake build "AbacusVerif.Props.$id" "drv_$low" > "/tmp/abverif_setup_$id.log" 2>&1; then
+    echo "[setup] WARNING: build of $id failed (the check will report it):"
+    tail -n 20 "/tmp/abverif_setup_$id.log"
+  fi
+  rm -f "/tmp/abverif_setup_$id.log"
+done
+exit $rc
